@@ -51,6 +51,9 @@ def run(tier, seed, t0):
                     ["--mode", "lwe", "--n", "8,9,16,17,630", "--reps", 3, "--seed", seed + 3], timeout=1200))
     jobs.append(Job("asan-extract", "drv_c14", "asan", "spqlios-fma",
                     ["--mode", "extract", "--N", "2,16,1024", "--k", "1,2,3", "--reps", 1, "--seed", seed + 3], timeout=1200))
+    for i, j in enumerate(jobs):      # process history: every other native job runs the operations in other dimensions first
+        if j.tool is None and j.flavor in ("optim", "debug") and i % 2 == 0:
+            j.args = j.args + ["--prelude", "1"]
     return vcheck.simple_run("C14", tier, seed, t0, jobs, "exploration", RULE,
                              ["exact phases are computed by the harness in Z/2^32 with keys of its own choosing (binary, arbitrary, extreme)",
                               "TLWE relations checked here are the FFT-free ones (any N); FFT-based products are C09/C10"],
